@@ -417,7 +417,12 @@ def generic_attributes_read_only_off_generic_values(ctx: Ctx) -> None:
                 cn = g.node_of(node)
                 name = node.value.id
                 guards = [t for t in g.nodes if t.kind == "test" and isinstance(t.ast, ast.Call) and unparse(t.ast.func) == "isinstance" and unparse(t.ast.args[0]) == name]
-                ok = cn is not None and any(g.only_if(cn.id, t.id, True) for t in guards)
+                # flow sensitive: the value taken from params reaches this read only along the true edge of an isinstance test
+                # (a value assigned from a constructor call in between is generic by construction)
+                from ..q import def_reaches_use, _def_nodes
+                true_edges = [(t.id, m_, l_) for t in guards for m_, l_ in g.succ[t.id] if l_ == "false"]
+                raw_defs = [d for d, v in _def_nodes(g).get(name, {}).items() if v is not None and unparse(v).startswith(("params[", "params.get("))]
+                ok = cn is not None and bool(guards) and not any(def_reaches_use(g, d, cn.id, name, [(a, b, l_) for a, b, l_ in [(t.id, m_, l2) for t in guards for m_, l2 in g.succ[t.id] if l2 == "true"]]) for d in raw_defs)
                 ctx.ob(f"ElementNode.{m.name}: {name}.{node.attr} is read only after isinstance({name}, <generic element>)", ok, at=m, node=node,
                        msg=f"{name} is whatever an earlier element was bound to (possibly a user model): reading .{node.attr} on it raises AttributeError, not a parser error")
     ctx.note("C15.R8 generic attribute reads", n)
